@@ -18,6 +18,10 @@ Proof.
   unfold name_inner in *. cbn [name_len map concat]. rewrite blen_app, IH, comp_len_enc. reflexivity.
 Qed.
 
+From Names Require Import Order.
+Lemma comp_from_bytes_enc c : comp_wf c -> comp_from_bytes (comp_enc c) = Some c.
+Proof. intros H. unfold comp_from_bytes. rewrite <- (app_nil_r (comp_enc c)). rewrite read_comp_enc by exact H. reflexivity. Qed.
+
 (* the packet encoder writes a name exactly as Name.Bytes() does *)
 Lemma name_tlv_bytes n : name_tlv n = name_bytes n.
 Proof. unfold name_tlv, tlv, name_bytes. rewrite name_len_inner. reflexivity. Qed.
